@@ -17,6 +17,7 @@ import (
 	"seehuhn.de/go/postscript/type1"
 
 	"verif/harness/ev"
+	"verif/harness/hostile"
 	"verif/harness/known"
 	"verif/harness/t1gen"
 	"verif/harness/t1ref"
@@ -34,7 +35,28 @@ type c10case struct {
 }
 
 type exclusions struct {
-	shadow, newline, holes bool
+	shadow, newline, holes, longCS bool
+}
+
+// longCharstring reports whether some glyph of f is written as a charstring
+// of more than 65535 bytes (decided by writing the font and measuring with the
+// independent parser).
+func longCharstring(f *type1.Font) bool {
+	var buf bytes.Buffer
+	if f.Write(&buf, &type1.WriterOptions{Format: type1.FormatNoEExec}) != nil {
+		return false
+	}
+	// the independent parser has no string limit
+	p, err := t1ref.Parse(buf.Bytes())
+	if err != nil {
+		return false
+	}
+	for _, c := range p.CharCipher {
+		if len(c) > 65535 {
+			return true
+		}
+	}
+	return false
 }
 
 var (
@@ -119,6 +141,9 @@ func check(c *c10case, ex exclusions) (string, string) {
 	for _, format := range formats {
 		f2, msg := writeRead(f1, format)
 		if msg != "" {
+			if ex.longCS && strings.Contains(msg, "limitcheck") && longCharstring(f1) {
+				return "", "known finding: a glyph needs a charstring of more than 65535 bytes"
+			}
 			return "cycle 1: " + msg, ""
 		}
 		if msg := t1gen.DiffFont(f1, f2, tol12); msg != "" {
@@ -162,6 +187,24 @@ func findings(rec *ev.Rec) exclusions {
 			return true
 		}
 		_, msg := writeRead(f1, type1.FormatPFA)
+		return msg != ""
+	})
+	ex.longCS = known.Probe(rec, "C10-charstring-longer-than-a-string", func() bool {
+		// a glyph of 7000 segments with five-byte coordinates
+		f := &type1.Font{
+			FontInfo: &type1.FontInfo{FontName: "Long", FontMatrix: [6]float64{0.001, 0, 0, 0.001, 0, 0}},
+			Private:  &type1.PrivateDict{BlueScale: 0.039625, BlueShift: 7, BlueFuzz: 1},
+			Glyphs:   map[string]*type1.Glyph{},
+		}
+		f.NewGlyph(".notdef", 250)
+		g := f.NewGlyph("long", 500)
+		g.MoveTo(0, 0)
+		for k := 0; k < 7000; k++ {
+			s := float64(1 - 2*(k%2))
+			g.LineTo(s*float64(20000+k), -s*float64(30000+2*k))
+		}
+		g.ClosePath()
+		_, msg := writeRead(f, type1.FormatPFA)
 		return msg != ""
 	})
 	ex.newline = pr("C09-version-newline", func(m *t1ref.Font) {
@@ -235,6 +278,43 @@ func TestP1Independent(t *testing.T) {
 			sort.Strings(fs)
 			rec.Sample(map[string]any{"model": m.Summary(), "features": strings.Join(fs, ",")})
 		}
+		if msg != "" {
+			rec.Fail(t, msg, c)
+		}
+	})
+}
+
+// TestP4Damaged: whatever the reader accepts - not only well-formed fonts.
+func TestP4Damaged(t *testing.T) {
+	rec := ev.New("C10", "damaged")
+	defer rec.Finish(t)
+	rec.Rule("inputs: the structure-aware damaged fonts of the C01 generators (random charstrings over all commands, composites that name themselves, each other, missing or damaged components - with and without an outline of their own before seac -, glyphs holding half of a flex / othersubr / hint-replacement sequence, wrong-typed dictionary entries, odd lenIV ...) in all containers. Most are rejected (counted and discarded); every font the reader accepts (with finite numbers) goes through the cycles of the independent part: F2=Read(Write(F1)) equal to F1 up to the documented quantisation in each format, F3=Read(Write(F2)) deep-equal to F2. Non-trivial: the input was accepted; distinct by input bytes.")
+	ex := findings(rec)
+	ev.SetupRapid(6000, 160000)
+	rapid.Check(t, func(t *rapid.T) {
+		var f *t1ref.RawFont
+		var label string
+		if rapid.Bool().Draw(t, "composites") {
+			// half of the inputs: ordinary fonts whose composites are damaged
+			// (own outline before seac, naming themselves or each other)
+			f, label = hostile.FontOfKind(t, 11)
+		} else {
+			f, label = hostile.Font(t)
+		}
+		c := &c10case{Data: t1ref.WriteRaw(f)}
+		var msg, status string
+		msg = ev.Safe(func() string {
+			var m string
+			m, status = check(c, ex)
+			return m
+		})
+		if status != "" {
+			rec.Excluded(status)
+			return
+		}
+		rec.Eval(1)
+		rec.Class("accepted:" + label)
+		rec.NonTrivialHash(ev.Hash(string(c.Data)))
 		if msg != "" {
 			rec.Fail(t, msg, c)
 		}
